@@ -257,10 +257,54 @@ class FactBase:
             from .inline import Inliner, default_policy
             inl = Inliner(self, default_policy(self), src=self.orig_fns)
             self.fns = {k: inl.run(f) for k, f in self.orig_fns.items()}
-            # new helpers all of whose call sites were expanded are analysed in their callers only
-            self.absorbed = set(inl.absorbed)
+            # helpers (and closures) all of whose call sites were expanded are analysed inside their callers only: they
+            # disappear from the function table, like a function the compiler inlined everywhere
+            cand = set(inl.absorbed)
+            changed = True
+            while changed:
+                changed = False
+                called = set()
+                for k, f in self.fns.items():
+                    if k in cand:
+                        continue
+                    for _bb, t in f.calls():
+                        c = callee_of(t)
+                        if c is not None:
+                            called.add(resolved(c).get("key"))
+                    for b in f.blocks:
+                        for st in b["stmts"]:
+                            if st["k"] == "assign" and st["rv"]["k"] == "agg" and st["rv"].get("ak") == "closure":
+                                pass
+                for k in list(cand):
+                    if k in called:
+                        cand.discard(k)
+                        changed = True
+            # closures are reachable through their aggregate value as well: keep a closure unless every value of it was
+            # consumed by an expanded combinator (conservatively: keep closures that are still passed to a call)
+            still_passed = set()
+            for k, f in self.fns.items():
+                if k in cand:
+                    continue
+                for _bb, t in f.calls():
+                    for ty in t.get("atys", []) or []:
+                        if "{closure@" in ty:
+                            still_passed.add(f.key)
+            keep_closures = set()
+            for k in list(cand):
+                f = self.orig_fns[k]
+                if f.rec.get("dk") == "Closure":
+                    parent = k.rsplit("::{closure#", 1)[0]
+                    # a closure of a function that still passes some closure to an un-expanded call is kept
+                    if any(p == parent or p.startswith(parent + "::{closure#") for p in still_passed):
+                        keep_closures.add(k)
+            cand -= keep_closures
+            self.absorbed = cand
+            self.absorbed_fns = {k: self.fns[k] for k in cand}
+            for k in cand:
+                del self.fns[k]
         else:
             self.absorbed = set()
+            self.absorbed_fns = {}
         self._by_name = {}
         for f in self.fns.values():
             self._by_name.setdefault(f.name, []).append(f)
